@@ -49,4 +49,10 @@ PROPS = {
         'correspondence': 'verdict class and text of the selected rule, implementation vs model (for engine cases the matched rules in engine order are oracle inputs of the model)',
         'assumptions': ['$replace, $cookie, $csp and $redirect cannot be produced by the text parser (they are rejected as unknown modifiers), so those branches are covered by the theorems only'],
     },
+    'C04': {
+        'harness': 'c04',
+        'rule': 'rules from the modifier grammar (any subset of modifiers, 1-4 values each, negations, IPv4/IPv6/CIDR/quoted-name clients, mask and regex patterns, 4 % byte-mutated) paired with 1-3 requests coupled to the rule through the shared vocabulary (host, path, fragment, source domain incl. wildcard TLD instantiations, content type, client, tag); URL requests and hostname requests; non-trivial = the implementation reports a match; distinct = distinct (rule, request) pairs',
+        'correspondence': 'NetworkRule.Match of the implementation vs rule_match of the model on the rule parsed by the model and the request rebuilt by the model (PublicSuffix answers for the two hostnames are oracle inputs)',
+        'assumptions': ['ASCII fragment; regex rules outside the modelled RE2 fragment are counted unsupported', 'request tags sorted (documented caller obligation)'],
+    },
 }
